@@ -313,6 +313,12 @@ class Engine(object):
                        for k in range(0, len(samples) - 1, 2)]
                 if not moved:
                     raise Truncated("arc-planned-but-reference-did-not-move")
+            elif moved and not self.enabled:
+                # exclusion is off: nothing has to be classified, so the filter need not have planned the arc at all - but the
+                # move still counts (tracking while disabled is C14's business)
+                rec["is_move"] = True
+                rec["move_kind"] = "arc"
+                pts = [tuple(self.B.pos[:2])]
             elif moved:
                 raise Truncated("arc-unobserved")
         if rec["is_move"]:
